@@ -414,7 +414,8 @@ impl Check for GatherCarriesColumns {
             }
             DistOutcome::Err(e) => {
                 let msg = ctx_msg(&format!("the single node answers ({} rows) but execute_gathered fails: {}\n gathered: {}", single.len(), e, gathered));
-                if classify(c, Some(&reads), &msg).is_none() && same_as_local_over_memory(c, &Err(e.clone())) {
+                // (a signature of a FIXED finding does not exempt the case from this control)
+                if classify(c, Some(&reads), &msg).map(|id| !crate::runner::is_open_id(id)).unwrap_or(true) && same_as_local_over_memory(c, &Err(e.clone())) {
                     // nothing was lost by gathering: one node fails the same way over in-memory
                     // copies of the complete tables (the local engine's layout dependence is
                     // C09's / C04's finding, not a missing column)
